@@ -411,21 +411,50 @@ pub fn run_box_case(bytes: &[u8]) -> (Vec<String>, bool, Vec<u32>) {
                 } else {
                     go!(dyn Any)
                 }
-                // a droppable value behind dyn Any
-                let s: BBox<dyn Any> = unsafe { BBox::from_raw(BBox::into_raw(BBox::new_in(El::<0>::new(5), b)) as *mut dyn Any) };
-                let t: Box<dyn Any> = Box::new(El::<1>::new(5));
-                match g(4) % 2 {
-                    0 => {
-                        drop(s);
-                        drop(t);
-                    }
-                    _ => {
-                        let x = s.downcast::<El<0>>().ok().map(|x| x.val);
-                        let y = t.downcast::<El<1>>().ok().map(|y| y.val);
-                        if x != y {
-                            cx.v("downcast of a droppable value disagrees with std".into());
+                // a droppable value behind dyn Any / dyn Any + Send: matching and failed downcasts must neither drop nor
+                // duplicate it (the failed one hands the same box back)
+                macro_rules! droppy {
+                    ($dyn:ty) => {{
+                        let s: BBox<$dyn> = unsafe { BBox::from_raw(BBox::into_raw(BBox::new_in(El::<0>::new(5), b)) as *mut $dyn) };
+                        let t: Box<$dyn> = Box::new(El::<1>::new(5));
+                        match g(4) % 4 {
+                            0 => {
+                                drop(s);
+                                drop(t);
+                            }
+                            1 => {
+                                let x = s.downcast::<El<0>>().ok().map(|x| x.val);
+                                let y = t.downcast::<El<1>>().ok().map(|y| y.val);
+                                if x != y {
+                                    cx.v("downcast of a droppable value disagrees with std".into());
+                                }
+                            }
+                            m => {
+                                cx.failed_conv += 1;
+                                match (s.downcast::<u32>(), t.downcast::<u32>()) {
+                                    (Err(s2), Err(t2)) => {
+                                        cx.ledger("failed downcast of a droppable value (nothing may have been dropped yet)");
+                                        if m == 2 {
+                                            let x = s2.downcast::<El<0>>().ok().map(|x| x.val);
+                                            let y = t2.downcast::<El<1>>().ok().map(|y| y.val);
+                                            if x != y || x.is_none() {
+                                                cx.v("after a failed downcast the box no longer downcasts to its real type with its value".into());
+                                            }
+                                        } else {
+                                            drop(s2);
+                                            drop(t2);
+                                        }
+                                    }
+                                    _ => cx.v("downcast of a droppable value to a non-matching type succeeded".into()),
+                                }
+                            }
                         }
-                    }
+                    }};
+                }
+                if g(4) & 4 != 0 {
+                    droppy!(dyn Any + Send)
+                } else {
+                    droppy!(dyn Any)
                 }
                 cx.ledger("dyn Any with destructor");
             }
